@@ -722,6 +722,52 @@ after (fresh thread): {:?}", before.map(|d| hex(&d)), after.map(|d| hex(&d)), af
 			s.rep.violate("C15:processes", "fresh processes given the same keys and parameters produce different to-be-signed bytes", diff);
 		}
 	}
+	// (o) parameters with repeated list entries (the same alternative name twice in a row, apart,
+	// the same key usage twice): what `self_signed` returns as `params()` is what went in, and it
+	// encodes what `signed_by` with the certificate's own name and key encodes
+	#[cfg(not(feature = "nocrypto"))]
+	{
+		let key = s.ctx.key("ed25519");
+		for sans in [vec!["a.example", "a.example", "b.example"], vec!["a.example", "b.example", "a.example"], vec!["a.example", "a.example"], vec!["a.example"]] {
+			let mut p = PCert::empty();
+			p.serial = Some(vec![0x53]);
+			p.dn = Dn(vec![(DnT::Cn, DnV::Utf8("repeats".into()))]);
+			p.san = sans.iter().map(|x| San::Dns(x.to_string())).collect();
+			p.ku = vec![KeyUsagePurpose::DigitalSignature, KeyUsagePurpose::DigitalSignature];
+			p.ca = Ca::Ca(None);
+			let rp = p.real().unwrap();
+			let own = rp.clone().self_signed(&key).unwrap();
+			let issuer_obj = rp.clone().self_signed(&key).unwrap();
+			let via_issuer = rp.clone().signed_by(&*key, &issuer_obj, &key).unwrap();
+			let tbs = |c: &Certificate| crate::der::split_signed(c.der()).map(|x| x.0);
+			s.rep.case(&format!("repeated entries {:?}", sans), true);
+			s.rep.evaluations += 2;
+			if own.params() != &rp {
+				s.rep.violate("C15:returned-params", "the parameters a certificate hands back differ from the ones it was generated from", format!("alternative names given {:?}\nhanded back: {:?}", sans, own.params().subject_alt_names));
+			}
+			if tbs(&own) != tbs(&via_issuer) {
+				s.rep.violate("C15:entry-points-agree", "self_signed and signed_by with the certificate's own name and key encode different to-be-signed bytes for the same parameters", format!("alternative names {:?}\nself_signed: {:?}\nsigned_by:   {:?}", sans, tbs(&own).map(|b| hex(&b)), tbs(&via_issuer).map(|b| hex(&b))));
+			}
+		}
+		// a revocation list long enough for any batching: the same bytes every time, entries in
+		// the order given
+		let mut c = gen_crl(&mut s.rng);
+		c.revoked = (0..5000u32).map(|i| PRevoked { serial: vec![1, (i >> 8) as u8, i as u8], time: Dt::ymd(2024, 1, 1), reason: None, invalidity: None }).collect();
+		let iss = &s.issuers[0];
+		if let Some(rc) = c.real() {
+			let outs: Vec<Option<Vec<u8>>> = (0..4).map(|_| rc_clone(&c).and_then(|r| r.signed_by(&iss.cert, &iss.key).ok()).and_then(|x| crate::der::split_signed(x.der()).map(|y| y.0))).collect();
+			let _ = rc;
+			s.rep.evaluations += 4;
+			let serials_in_order = outs[0].as_ref().map(|t| {
+				let mut last = 0usize;
+				(0..5000u32).all(|i| { let pat = [0x02u8, 0x03, 1, (i >> 8) as u8, i as u8]; match t[last..].windows(5).position(|w| w == pat) { Some(p) => { last += p + 5; true }, None => false } })
+			});
+			if outs.iter().any(|o| o != &outs[0]) || serials_in_order != Some(true) {
+				s.rep.violate("C15:long-crl", "a revocation list with 5000 entries is not the same bytes on every call, or its entries are not in the order given", format!("4 calls: {} distinct outputs; entries in the order given: {:?}", { let mut u = outs.clone(); u.sort(); u.dedup(); u.len() }, serials_in_order));
+			}
+		}
+		s.rep.exhaustive.push("parameters with repeated list entries through self_signed and signed_by; a 5000-entry revocation list generated four times".into());
+	}
 	// (m) one issuer `Certificate` object used with two issuer keys (a CA re-keyed under the same
 	// name), in either order, its key identifier asked for in between, as a clone: what is issued
 	// with (object, key) is what a fresh object issues with that key — the object has no memory
@@ -818,4 +864,10 @@ fn run_cert_case_quiet(s: &mut Suite, p: &PCert, iss: Option<usize>, alg: &str) 
 	}))
 	.ok()
 	.flatten()
+}
+
+/// a fresh real value of the same abstract revocation list (the real type is not Clone)
+#[cfg(not(feature = "nocrypto"))]
+fn rc_clone(c: &PCrl) -> Option<CertificateRevocationListParams> {
+	c.real()
 }
